@@ -207,6 +207,63 @@ func Run(r *mc.Run) {
 		"not_explored": "xz or lzma dictionaries above 64 MiB (no xz preset asks for more; the library documents 64 MiB as its default limit), zstd windows above 64 MiB"},
 		len(par), func(i int, st *mc.Stats) bool { return runIns(r, "encoder-parameters", c, par[i], st) })
 
+	// ---- scenario 1c: SIZES are part of the model: a sibling file of a size around the 2^n / tar-record boundaries placed
+	// BEFORE ./control, control paragraphs of ~1.5 KiB, ~40 KiB and ~140 KiB, under all six control encodings; and one data
+	// file above 1 MiB under all six data encodings. Expected result = the model.
+	sibSizes := []int{511, 512, 513, 4095, 4096, 10240, 31000, 32767, 32768, 65536, 131072}
+	type szCfg struct {
+		p   paragraph
+		sib int
+	}
+	medium, big40, big140 := bigParagraph("medium(1.5KiB)", 1500), bigParagraph("big(40KiB)", 40<<10), bigParagraph("big(140KiB)", 140<<10)
+	szCfgs := []szCfg{{medium, 0}, {big40, 0}, {big140, 0}, {big40, 512}, {big40, 31000}, {big40, 32768}, {big140, 31000}}
+	for _, sz := range sibSizes {
+		szCfgs = append(szCfgs, szCfg{medium, sz})
+	}
+	bigData := [][]gen.TarEntry{{{Name: "./", Dir: true}, {Name: "./usr/lib/big.bin", Fill: 1<<20 + 17}, {Name: "./usr/lib/after", Body: []byte("after the big file\n")}}}
+	if !r.Quick() {
+		bigData = append(bigData, []gen.TarEntry{{Name: "./big3.bin", Fill: 3<<20 + 511}, {Name: "./tail", Body: []byte("x")}})
+	}
+	szModel := func(cf szCfg, cc string) In {
+		es := []string{"./control"}
+		var sizes map[string]int
+		if cf.sib > 0 {
+			es = []string{"./md5sums", "./control"}
+			sizes = map[string]int{"./md5sums": cf.sib}
+		}
+		in := mkIn(cf.p, es, dfs[1], cc, "gz", "", "")
+		in.Model.EntrySizes = sizes
+		in.Name = fmt.Sprintf("%s control=%s sibling ./md5sums of %d bytes before ./control", cf.p.name, cc, cf.sib)
+		return in
+	}
+	var szBlobs [][]byte
+	for _, cf := range szCfgs {
+		szBlobs = append(szBlobs, szModel(cf, "none").Model.ControlTar())
+	}
+	for _, f := range bigData {
+		szBlobs = append(szBlobs, gen.BuildTar(f))
+	}
+	if err := c.Prepare(comps, szBlobs...); err != nil {
+		r.HarnessError("compressor (sizes): %v", err)
+		return
+	}
+	var szIns []In
+	for _, cf := range szCfgs {
+		for _, cc := range comps {
+			szIns = append(szIns, szModel(cf, cc))
+		}
+	}
+	for _, f := range bigData {
+		for _, dc := range comps {
+			in := mkIn(ps[0], controlEntrySets[0], f, "gz", dc, "", "")
+			in.Name = fmt.Sprintf("data=%s with a file of %d bytes", dc, f[len(f)-2].Fill)
+			szIns = append(szIns, in)
+		}
+	}
+	r.Scenario("sizes", map[string]interface{}{"sibling_before_control_bytes": sibSizes, "control_paragraph": []string{"~1.5 KiB", "~40 KiB", "~140 KiB"},
+		"combinations": "1.5 KiB paragraph x every sibling size; 40 KiB x {none, 512, 31000, 32768}; 140 KiB x {none, 31000}; each x 6 control encodings; data file of 1 MiB+17 (thorough also 3 MiB+511) x 6 data encodings",
+		"filler":       "gen.PatternBytes (incompressible)"}, len(szIns), func(i int, st *mc.Stats) bool { return runIns(r, "sizes", c, szIns[i:i+1], st) })
+
 	// ---- scenario 2: rejections
 	pairs := [][2]string{{"none", "none"}, {"gz", "gz"}}
 	if has(comps, "xz") && has(comps, "zst") {
@@ -272,8 +329,36 @@ func Run(r *mc.Run) {
 			}
 		}
 	}
+	// a further control.* / data.* member under every name of a name alphabet, at every position
+	secondNames := func(cc, dc string) []string {
+		other := func(orig string) string {
+			if orig == "gz" {
+				return "none"
+			}
+			return "gz"
+		}
+		return []string{
+			"control.tar" + gen.DebCompExt(other(cc)), "control.tar" + gen.DebCompExt(cc), "control.sig", "control.old.tar", "control.", "control.tar.old", "control.old.tar.gz",
+			"data.tar" + gen.DebCompExt(other(dc)), "data.tar" + gen.DebCompExt(dc), "data.sig", "data.img", "data.", "data.old.tar", "data.old.tar.gz",
+		}
+	}
+	nSecond := 0
+	for _, pr := range mp[:2] {
+		for _, sn := range secondNames(pr[0], pr[1]) {
+			for pos := 0; pos <= 3; pos++ {
+				in := mkIn(ps[1], controlEntrySets[2], dfs[2], pr[0], pr[1], "", "")
+				in.SecondName, in.SecondPos = sn, pos
+				in.Orders = true
+				in.Verdict = "lenient" // may be refused; the same bytes always the same way; if loaded, the content is the model's
+				in.Name += fmt.Sprintf(" further member %q at position %d", sn, pos)
+				det = append(det, in)
+				nSecond++
+			}
+		}
+	}
 	MapOrderBound = r.Pick(1, 2)
 	r.Scenario("map-orders", map[string]interface{}{"map_order_deviation_bound": MapOrderBound, "compression_pairs": mp, "extras": extras, "layouts": layouts, "second_control_or_data_member": dups,
+		"further_member_names": secondNames("gz", "gz"), "further_member_positions": "0..3", "further_member_inputs": nSecond,
 		"orders": MapOrderNote, "repetitions": MapOrderReps}, len(det),
 		func(i int, st *mc.Stats) bool { return runIns(r, "map-orders", c, det[i:i+1], st) })
 }
